@@ -163,6 +163,26 @@ def op_stub_update(w, op):
             os.unlink(os.path.join(ldir, f))
     finally:
         again.close()
+    # ---- the same file set opened through the plain record class: still contains a stub
+    try:
+        plain = IH5Record(os.path.join(ldir, r.name), "r")
+    except Exception:
+        plain = None
+        w.probe("stub_set_not_openable_as_plain_record")
+    if plain is not None:
+        try:
+            before = sorted(os.listdir(ldir))
+            try:
+                plain.merge_files(Path(os.path.join(ldir, "merged3")))
+                merged = True
+            except Exception:
+                merged = False
+            if merged:
+                raise Violation("C10", "stub-merged", "merge_files on stub + patch opened as plain IH5Record succeeded (a data-less container with the identity of the real record)", shape="plain-class")
+            for f in set(os.listdir(ldir)) - set(before):
+                os.unlink(os.path.join(ldir, f))
+        finally:
+            plain.close()
     # ---- a stub built with the generic helpers on a plain IH5Record (init_stub_base)
     if op.get("plain_stub", True):
         from metador_core.ih5.skeleton import init_stub_base
